@@ -1,1 +1,7 @@
+pub mod buf;
+pub mod index;
+pub mod parse;
+pub mod prefix;
+pub mod slice;
 pub mod token;
+pub mod tokens;
